@@ -220,6 +220,15 @@ def get_variables_with_sort(var_sort):
     return [v for v in __sort_lookup if __sort_lookup[v] == var_sort]
 
 
+def is_declared(name):
+    """Return true if ``name`` is a declared, defined or bound symbol.
+
+    Requires that global information has been populated via
+    ``collect_information``.
+    """
+    return name in __sort_lookup
+
+
 def introduce_variables(exprs, vars):
     """Adds new variables to a set of input expressions.
 
